@@ -118,7 +118,7 @@ class Gen:
             if rng.random() < 0.2:
                 child["after"] = rng.choice(DELAYS)
             elif rng.random() < 0.05:
-                child["at"] = rng.choice([40, 64])      # far in the future: never in the past
+                child["after"] = rng.choice([40, 64])   # long start delays (absolute dates could lie in the past)
             children.append(child)
         op["children"] = children
         body = []
